@@ -216,7 +216,22 @@ fn gen_quant_values(src: &mut Src, p16: bool) -> [u16; 64] {
     v
 }
 
-fn gen_magnitude(p: &mut Bulk, max: i32) -> i32 {
+/// Content style: 0 = sequential files, 1 = progressive files (more small magnitudes above 1, so that
+/// point transforms and refinement passes have work), 2 = almost only empty blocks (very large images).
+fn gen_magnitude(p: &mut Bulk, max: i32, style: u8) -> i32 {
+    if style != 0 {
+        return match p.weighted(&[3, 5, 3, 1, 1]) {
+            0 => 1,
+            1 => 2 + p.below(6) as i32,
+            2 => 1 + p.below(max.min(31) as usize) as i32,
+            3 => 1 + p.below(max as usize) as i32,
+            _ => {
+                let k = p.below(11) as u32;
+                let b = 1i32 << k;
+                [b, b - 1, b + 1][p.below(3)].clamp(1, max)
+            }
+        };
+    }
     match p.weighted(&[8, 4, 1, 1]) {
         0 => 1,
         1 => 1 + p.below(max.min(7) as usize) as i32,
@@ -231,7 +246,7 @@ fn gen_magnitude(p: &mut Bulk, max: i32) -> i32 {
 }
 
 /// One block's AC coefficients (zig-zag positions 1..=63); returns the class of the block.
-fn gen_block_ac(p: &mut Bulk, blk: &mut [i16; 64], dense_bias: u32) -> &'static str {
+fn gen_block_ac(p: &mut Bulk, blk: &mut [i16; 64], dense_bias: u32, style: u8) -> &'static str {
     let kind = p.weighted(&[10, 12, 4, dense_bias, 3, 1]);
     let mut pos: BTreeSet<usize> = BTreeSet::new();
     let label = match kind {
@@ -282,18 +297,19 @@ fn gen_block_ac(p: &mut Bulk, blk: &mut [i16; 64], dense_bias: u32) -> &'static 
         }
     };
     for k in pos {
-        let m = gen_magnitude(p, 1023);
+        let m = gen_magnitude(p, 1023, style);
         blk[k] = if p.chance(128) { -m } else { m } as i16;
     }
     label
 }
 
-fn gen_component_blocks(src: &mut Src, bw: usize, bh: usize, direct: bool, classes: &mut BTreeSet<String>) -> Vec<[i16; 64]> {
+fn gen_component_blocks(src: &mut Src, bw: usize, bh: usize, direct: bool, style: u8, classes: &mut BTreeSet<String>) -> Vec<[i16; 64]> {
     let dc_style = src.weighted(&[2, 4, 3, 2, 1]);
     let dense_bias = src.pick(&[0u32, 1, 1, 5]);
     let base = src.range_i(-1024, 1023);
     let mut p = Bulk::new(src, direct);
     let mut out = vec![[0i16; 64]; bw * bh];
+    let n_blocks = bw * bh;
     let mut walk = base;
     for (i, blk) in out.iter_mut().enumerate() {
         // DC values of 8-bit baseline JPEG: -1024..=1023, so that every difference fits category 11
@@ -315,7 +331,9 @@ fn gen_component_blocks(src: &mut Src, bw: usize, bh: usize, direct: bool, class
             _ => [0, 1, -1, 2, -2, 255, -256, 1023, -1024, 1022, -1023][p.below(11)],
         };
         blk[0] = dc as i16;
-        let l = gen_block_ac(&mut p, blk, dense_bias);
+        // (style 2: content only near both ends of the image, so that one end-of-band run spans the rest)
+        let ends = (n_blocks / 8).min(64);
+        let l = if style == 2 && i >= ends && i + ends < n_blocks { "empty" } else { gen_block_ac(&mut p, blk, dense_bias, if style == 2 { 1 } else { style }) };
         classes.insert(format!("block:{l}"));
     }
     classes.insert(format!("dc:{}", ["constant", "walk", "noise", "extreme-diffs", "boundary-values"][dc_style]));
@@ -325,8 +343,13 @@ fn gen_component_blocks(src: &mut Src, bw: usize, bh: usize, direct: bool, class
 /// A valid Huffman table (Annex C) containing at least the symbols in `needed`.
 fn gen_huff_table(src: &mut Src, ac: bool, id: u8, needed: &BTreeSet<u8>, classes: &mut BTreeSet<String>) -> HuffTableSpec {
     let mut set = needed.clone();
+    // a table of a progressive file (it codes an end-of-band run) may hold the other EOBn symbols too
+    let progressive = ac && needed.iter().any(|&x| x & 15 == 0 && (1..=14).contains(&(x >> 4)));
     let universe: Vec<u8> = if ac {
         let mut u = vec![0x00u8, 0xf0];
+        if progressive {
+            u.extend((1..=14u8).map(|n| n << 4));
+        }
         for r in 0..16u8 {
             for s in 1..=10u8 {
                 u.push((r << 4) | s);
@@ -865,6 +888,197 @@ pub fn transcode_codestream(spec: &JpegSpec, icc: Option<&[u8]>, src: &mut Src) 
 }
 
 // ---------------------------------------------------------------------------
+// Progressive scan scripts
+
+/// `n` choice bytes derived from another choice sequence (all zero when that one is).
+fn derive_bytes(from: &[u8], n: usize) -> Vec<u8> {
+    if from.iter().all(|&b| b == 0) {
+        return vec![0; n];
+    }
+    let mut s = 0x2545_f491_4f6c_dd1du64;
+    for &b in from.iter().take(32) {
+        s = (s ^ b as u64).wrapping_mul(0x100_0000_01b3);
+    }
+    s |= 1;
+    let mut out = Vec::with_capacity(n + 8);
+    while out.len() < n {
+        s ^= s << 13;
+        s ^= s >> 7;
+        s ^= s << 17;
+        out.extend_from_slice(&s.to_le_bytes());
+    }
+    out.truncate(n);
+    out
+}
+
+/// How many ZRL symbols fit between the last coefficient a scan codes in `blk` and the end of the band.
+fn zrl_room(blk: &[i16; 64], sc: &ScanSpec) -> u32 {
+    let a: Vec<i32> = (sc.ss as usize..=sc.se as usize).map(|k| (blk[k] as i32).abs() >> sc.al).collect();
+    let zeros_after = |from: usize| a[from..].iter().filter(|&&x| x == 0).count() as u32;
+    if sc.ah == 0 {
+        let start = a.iter().rposition(|&x| x != 0).map(|p| p + 1).unwrap_or(0);
+        zeros_after(start) / 16
+    } else {
+        let start = a.iter().rposition(|&x| x == 1).map(|p| p + 1).unwrap_or(0);
+        zeros_after(start) / 16
+    }
+}
+
+/// A legal scan script for a progressive frame (G.1.1.1.1): per component a first DC scan, then for
+/// every band of AC coefficients a first scan (Ah = 0) and refinement scans (Ah = Al + 1) down to Al = 0,
+/// in a generated order; DC scans interleaved or not; bands of equal state may be refined together.
+fn gen_progressive_script(p: &mut Src, nc: usize, td_of: &[u8], ta_of: &[u8], huge: bool, classes: &mut Vec<String>) -> Vec<ScanSpec> {
+    #[derive(Clone)]
+    struct Band {
+        lo: u8,
+        hi: u8,
+        al: Option<u8>,
+        init: u8,
+    }
+    let mk = |comps: &[usize], ss: u8, se: u8, ah: u8, al: u8| ScanSpec { comps: comps.iter().map(|&c| ScanCompSpec { comp: c, td: td_of[c], ta: ta_of[c] }).collect(), ss, se, ah, al, ..Default::default() };
+    // DC: groups of components for the first scan, each with its own Al
+    let groups: Vec<Vec<usize>> = if nc == 1 {
+        vec![vec![0]]
+    } else {
+        match p.weighted(&[5, 2, 1, 1]) {
+            0 => vec![vec![0, 1, 2]],
+            1 => vec![vec![0], vec![1], vec![2]],
+            2 => vec![vec![0], vec![1, 2]],
+            _ => vec![vec![0, 2], vec![1]],
+        }
+    };
+    let mut dc_first: Vec<(Vec<usize>, u8)> = groups.into_iter().map(|g| (g, if huge { 1 } else { p.weighted(&[3, 4, 2]) as u8 })).collect();
+    let mut dc_al: Vec<Option<u8>> = vec![None; nc];
+    // AC bands
+    let mut bands: Vec<Vec<Band>> = vec![];
+    let mut n_bands = 0;
+    for _ in 0..nc {
+        let cuts: Vec<u8> = if huge {
+            vec![6]
+        } else {
+            match p.weighted(&[3, 3, 3, 1]) {
+                0 => vec![],
+                1 => vec![6],
+                2 => {
+                    let mut v: Vec<u8> = (0..p.range(1, 3)).map(|_| p.range(2, 63) as u8).collect();
+                    v.sort();
+                    v.dedup();
+                    v
+                }
+                _ => {
+                    // a band of a single coefficient
+                    let k = p.range(2, 62) as u8;
+                    vec![k, k + 1]
+                }
+            }
+        };
+        let mut v = vec![];
+        let mut lo = 1u8;
+        for c in cuts.into_iter().chain(std::iter::once(64)) {
+            let init = if huge { 1 } else { p.weighted(&[2, 4, 3, 1]) as u8 };
+            v.push(Band { lo, hi: c - 1, al: None, init });
+            lo = c;
+        }
+        n_bands += v.len();
+        bands.push(v);
+    }
+    classes.push(format!("prog:bands-per-image:{}", match n_bands { 1..=3 => "1-3", 4..=6 => "4-6", _ => ">6" }));
+    let truncate_at = if !huge && p.chance(16) { Some(p.range(2, 8) as usize) } else { None };
+    let merge_bias = p.pick(&[0u32, 128, 230]);
+    let mut out: Vec<ScanSpec> = vec![];
+    let mut merged = false;
+    loop {
+        // candidate scans
+        let mut cands: Vec<(ScanSpec, u32)> = vec![];
+        for (i, (g, al)) in dc_first.iter().enumerate() {
+            let _ = i;
+            cands.push((mk(g, 0, 0, 0, *al), 6));
+        }
+        // DC refinement: all components at the same level together, or one of them
+        for a in 1..=3u8 {
+            let at: Vec<usize> = (0..nc).filter(|&c| dc_al[c] == Some(a)).collect();
+            if at.is_empty() {
+                continue;
+            }
+            if at.len() > 1 {
+                cands.push((mk(&at, 0, 0, a, a - 1), 3));
+            }
+            for &c in &at {
+                cands.push((mk(&[c], 0, 0, a, a - 1), 1));
+            }
+        }
+        for c in 0..nc {
+            if dc_al[c].is_none() {
+                // the first scan of a component is its DC scan
+                continue;
+            }
+            let bs = &bands[c];
+            let mut i = 0;
+            while i < bs.len() {
+                match bs[i].al {
+                    None => {
+                        cands.push((mk(&[c], bs[i].lo, bs[i].hi, 0, bs[i].init), 5));
+                        i += 1;
+                    }
+                    Some(0) => i += 1,
+                    Some(a) => {
+                        // maximal stretch of adjacent bands at the same level
+                        let mut j = i;
+                        while j + 1 < bs.len() && bs[j + 1].al == Some(a) {
+                            j += 1;
+                        }
+                        for k in i..=j {
+                            cands.push((mk(&[c], bs[k].lo, bs[k].hi, a, a - 1), 2));
+                        }
+                        if j > i {
+                            cands.push((mk(&[c], bs[i].lo, bs[j].hi, a, a - 1), 1 + merge_bias / 16));
+                        }
+                        i = j + 1;
+                    }
+                }
+            }
+        }
+        if cands.is_empty() {
+            break;
+        }
+        if let Some(t) = truncate_at {
+            if out.len() >= t && dc_first.is_empty() {
+                classes.push("prog:script-truncated".into());
+                break;
+            }
+        }
+        let weights: Vec<u32> = cands.iter().map(|c| c.1).collect();
+        let pick = p.weighted(&weights);
+        let sc = cands.swap_remove(pick).0;
+        // apply
+        if sc.ss == 0 {
+            if sc.ah == 0 {
+                let comps: Vec<usize> = sc.comps.iter().map(|x| x.comp).collect();
+                dc_first.retain(|(g, _)| *g != comps);
+            }
+            for x in &sc.comps {
+                dc_al[x.comp] = Some(sc.al);
+            }
+        } else {
+            let c = sc.comps[0].comp;
+            let covered: Vec<usize> = (0..bands[c].len()).filter(|&i| bands[c][i].lo >= sc.ss && bands[c][i].hi <= sc.se).collect();
+            merged |= covered.len() > 1;
+            for i in covered {
+                bands[c][i].al = Some(sc.al);
+            }
+        }
+        out.push(sc);
+        if out.len() >= 40 {
+            break;
+        }
+    }
+    if merged {
+        classes.push("prog:refinement-over-merged-bands".into());
+    }
+    out
+}
+
+// ---------------------------------------------------------------------------
 // Whole case
 
 pub fn gen_jpeg_case(src: &mut Src, o: &JpegGenOpts) -> JpegCase {
@@ -876,14 +1090,30 @@ pub fn gen_jpeg_case(src: &mut Src, o: &JpegGenOpts) -> JpegCase {
     let xcode_bytes = src.fork_bytes(1200);
     let table_bytes = src.fork_bytes(900);
 
+    // Progressive or sequential: decided on a sequence derived from an existing sub-sequence, so that
+    // the choices of sequential cases are consumed exactly as before progressive files were added.
+    let prog_bytes = derive_bytes(&table_bytes, 700);
+    let mut psrc = Src::new(&prog_bytes);
+    let progressive = psrc.chance(102);
+    // a one-component image with more than 2^14 (or 2^15) blocks, so that the longest end-of-band runs occur
+    // (sides chosen so that the longest run falls into each of EOB8 .. EOB14, and beyond 32767)
+    let huge = if progressive && psrc.chance(9) { Some([160usize, 224, 320, 448, 640, 832, 1032, 1456][psrc.weighted(&[3, 3, 2, 2, 2, 1, 2, 2])]) } else { None };
+    classes.push(format!("jpeg:{}", if progressive { "progressive" } else { "sequential" }));
+
     // ---- frame structure ---------------------------------------------------------
-    let gray = src.chance(56);
-    let (w, h) = gen_dims(src, o, &mut classes);
+    let mut gray = src.chance(56);
+    let (mut w, mut h) = gen_dims(src, o, &mut classes);
+    if let Some(n) = huge {
+        gray = true;
+        (w, h) = (n, n - psrc.below(8));
+        classes.retain(|c| !c.starts_with("dims:"));
+        classes.push("dims:huge(eob-run-limits)".into());
+    }
     let sampling = if gray { 0 } else { src.weighted(&[4, 4, 2, 2]) };
     let (yh, yv) = [(1u8, 1u8), (2, 2), (2, 1), (1, 2)][sampling];
     classes.push(format!("sampling:{}", if gray { "gray" } else { ["444", "420", "422", "440"][sampling] }));
     let extended = src.chance(70);
-    classes.push(format!("sof:{}", if extended { "SOF1" } else { "SOF0" }));
+    classes.push(format!("sof:{}", if progressive { "SOF2" } else if extended { "SOF1" } else { "SOF0" }));
     let ids: Vec<u8> = if gray {
         if src.chance(40) {
             vec![src.byte()]
@@ -959,10 +1189,11 @@ pub fn gen_jpeg_case(src: &mut Src, o: &JpegGenOpts) -> JpegCase {
     for c in 0..nc {
         let (ch, cv) = if c == 0 { (yh, yv) } else { (1, 1) };
         let (bw, bh) = (mcus_x * ch as usize, mcus_y * cv as usize);
-        let blocks = gen_component_blocks(src, bw, bh, direct, &mut bclasses);
+        let style = if huge.is_some() { 2 } else if progressive { 1 } else { 0 };
+        let blocks = gen_component_blocks(src, bw, bh, direct, style, &mut bclasses);
         components.push(ComponentSpec { id: ids[c], h: ch, v: cv, tq: quant_tables[slot_of_comp[c]].id, bw, bh, blocks });
     }
-    let nonzero_ac_blocks = components.iter().flat_map(|c| c.blocks.iter()).filter(|b| b[1..].iter().any(|&v| v != 0)).count();
+    let mut nonzero_ac_blocks = components.iter().flat_map(|c| c.blocks.iter()).filter(|b| b[1..].iter().any(|&v| v != 0)).count();
 
     // ---- scans ---------------------------------------------------------------------
     let layout: Vec<Vec<usize>> = if gray {
@@ -982,7 +1213,8 @@ pub fn gen_jpeg_case(src: &mut Src, o: &JpegGenOpts) -> JpegCase {
             _ => vec![vec![0, 2], vec![1]],
         }
     };
-    classes.push(format!(
+    if !progressive {
+        classes.push(format!(
         "scans:{}",
         if gray {
             "single-component-image"
@@ -994,7 +1226,8 @@ pub fn gen_jpeg_case(src: &mut Src, o: &JpegGenOpts) -> JpegCase {
             "mixed"
         }
     ));
-    let n_tbl = if extended { 4 } else { 2 };
+    }
+    let n_tbl = if extended || progressive { 4 } else { 2 };
     let pattern = |src: &mut Src| -> Vec<u8> {
         match src.weighted(&[4, 2, if n_tbl >= 3 { 2 } else { 0 }, 2]) {
             0 => vec![0, 1, 1],
@@ -1005,7 +1238,11 @@ pub fn gen_jpeg_case(src: &mut Src, o: &JpegGenOpts) -> JpegCase {
     };
     let td_of = pattern(src);
     let ta_of = pattern(src);
-    let mut scans: Vec<ScanSpec> = layout.iter().map(|cs| ScanSpec { comps: cs.iter().map(|&c| ScanCompSpec { comp: c, td: td_of[c], ta: ta_of[c] }).collect(), extra_zrl: BTreeMap::new() }).collect();
+    let mut scans: Vec<ScanSpec> = if progressive {
+        gen_progressive_script(&mut psrc, nc, &td_of, &ta_of, huge.is_some(), &mut classes)
+    } else {
+        layout.iter().map(|cs| ScanSpec { comps: cs.iter().map(|&c| ScanCompSpec { comp: c, td: td_of[c], ta: ta_of[c] }).collect(), ..Default::default() }).collect()
+    };
     let n_scans = scans.len();
 
     // ---- restart interval -----------------------------------------------------------------
@@ -1016,6 +1253,8 @@ pub fn gen_jpeg_case(src: &mut Src, o: &JpegGenOpts) -> JpegCase {
         3 => (src.range(1, 300) as u16, Some(src.below(n_scans))),
         _ => (if src.bool() { 0 } else { 65535 }, Some(0)),
     };
+    // (the longest end-of-band runs need scans without restart markers)
+    let (restart_interval, dri_scan) = if huge.is_some() { (0, None) } else { (restart_interval, dri_scan) };
     classes.push(match (restart_interval, dri_scan) {
         (_, None) => "restart:none".into(),
         (0, _) => "restart:dri-zero".to_string(),
@@ -1024,14 +1263,87 @@ pub fn gen_jpeg_case(src: &mut Src, o: &JpegGenOpts) -> JpegCase {
     });
     let interval_of_scan: Vec<u16> = (0..n_scans).map(|s| if dri_scan.map(|d| s >= d).unwrap_or(false) { restart_interval } else { 0 }).collect();
 
-    let mut spec = JpegSpec { width: w as u32, height: h as u32, sof_marker: if extended { 0xc1 } else { 0xc0 }, components, quant_tables, huff_tables: vec![], scans: vec![], restart_interval, segments: vec![], pad_bits: None, tail: vec![] };
+    let mut spec = JpegSpec { width: w as u32, height: h as u32, sof_marker: if progressive { 0xc2 } else if extended { 0xc1 } else { 0xc0 }, components, quant_tables, huff_tables: vec![], scans: vec![], restart_interval, segments: vec![], pad_bits: None, tail: vec![] };
+
+    // ---- Huffman table policy (needed early: a progressive file with the typical tables of Annex K
+    // has no codes for end-of-band runs longer than one block) -------------------------------------------
+    let mut tsrc = Src::new(&table_bytes);
+    let huff_mode = tsrc.weighted(&[3, 4, 3]);
+    let huff_mode = if huge.is_some() && huff_mode == 0 { 1 } else { huff_mode };
+
+    // ---- progressive: what the scans really transmit; end-of-band run splits; extra ZRL symbols --------
+    if progressive {
+        spec.scans = std::mem::take(&mut scans);
+        let eff = effective_coefficients(&spec);
+        for (c, b) in eff.into_iter().enumerate() {
+            spec.components[c].blocks = b;
+        }
+        nonzero_ac_blocks = spec.components.iter().flat_map(|c| c.blocks.iter()).filter(|b| b[1..].iter().any(|&v| v != 0)).count();
+        let mut any_split = false;
+        let mut any_extra = false;
+        for si in 0..spec.scans.len() {
+            if spec.scans[si].ss == 0 {
+                continue;
+            }
+            let (order, _) = spec.scan_block_order(si);
+            let n = order.len();
+            let split_style = if huff_mode == 0 {
+                1
+            } else if huge.is_some() {
+                psrc.weighted(&[6, 0, 0, 1])
+            } else {
+                psrc.weighted(&[5, 1, 2, 1])
+            };
+            let extra_style = psrc.chance(80);
+            let mut pb = Bulk::new(&mut psrc, n <= 60);
+            let mut splits = BTreeSet::new();
+            match split_style {
+                0 => {}
+                1 => splits.extend(1..n as u32),
+                2 => {
+                    for i in 1..n as u32 {
+                        if pb.chance(60) {
+                            splits.insert(i);
+                        }
+                    }
+                }
+                _ => {
+                    // as an encoder with a bounded correction-bit buffer does: every so many blocks
+                    let every = 2 + pb.below(40) as u32;
+                    splits.extend((1..n as u32).filter(|i| i % every == 0));
+                }
+            }
+            let mut extra = BTreeMap::new();
+            if extra_style {
+                let sc = &spec.scans[si];
+                for (i, &(_, c, bx, by)) in order.iter().enumerate() {
+                    let comp = &spec.components[c];
+                    let room = zrl_room(&comp.blocks[by * comp.bw + bx], sc);
+                    if room > 0 && pb.chance(70) {
+                        extra.insert(i as u32, 1 + pb.below(room as usize) as u32);
+                    }
+                }
+            }
+            any_split |= !splits.is_empty();
+            any_extra |= !extra.is_empty();
+            spec.scans[si].eob_splits = splits;
+            spec.scans[si].extra_zrl = extra;
+        }
+        if any_split {
+            classes.push("prog:reset-points".into());
+        }
+        if any_extra {
+            classes.push("prog:extra-zero-runs".into());
+        }
+        scans = std::mem::take(&mut spec.scans);
+    }
 
     // ---- extra ZRL symbols before EOB ---------------------------------------------------------
-    if src.chance(50) {
+    if !progressive && src.chance(50) {
         let mut any = false;
         for scan in scans.iter_mut() {
             // block order of this scan (the helper works on `spec.scans`)
-            spec.scans = vec![ScanSpec { comps: scan.comps.clone(), extra_zrl: BTreeMap::new() }];
+            spec.scans = vec![ScanSpec { comps: scan.comps.clone(), ..Default::default() }];
             let (order, _) = spec.scan_block_order(0);
             let mut p = Bulk::new(src, order.len() <= 60);
             for (i, &(_, c, bx, by)) in order.iter().enumerate() {
@@ -1052,21 +1364,54 @@ pub fn gen_jpeg_case(src: &mut Src, o: &JpegGenOpts) -> JpegCase {
     spec.scans = scans;
 
     // ---- Huffman tables ---------------------------------------------------------------------
-    let mut tsrc = Src::new(&table_bytes);
-    let huff_mode = tsrc.weighted(&[3, 4, 3]);
     classes.push(format!("huffman:{}", ["standard", "generated-upfront", "generated-per-scan"][huff_mode]));
     // symbols used by each scan, per (class, destination)
     let mut used: Vec<BTreeMap<(bool, u8), BTreeSet<u8>>> = vec![];
     let mut restarts_expected = 0usize;
+    let mut pstats = ScanStats::default();
     for s in 0..n_scans {
-        let toks = match scan_tokens(&spec, s, interval_of_scan[s]) {
-            Ok(t) => t,
-            Err(e) => return failed_case(spec, classes, format!("scan tokens: {e}")),
+        let toks = if progressive {
+            match progressive_scan_tokens(&spec, s, interval_of_scan[s]) {
+                Ok((t, st)) => {
+                    let sc = &spec.scans[s];
+                    classes.push(match (sc.ss == 0, sc.ah == 0) {
+                        (true, true) => format!("prog:dc-first(al={}){}", sc.al, if sc.comps.len() > 1 { "/interleaved" } else { "" }),
+                        (true, false) => format!("prog:dc-refine{}", if sc.comps.len() > 1 { "/interleaved" } else { "" }),
+                        (false, true) => format!("prog:ac-first(al={})", sc.al),
+                        (false, false) => format!("prog:ac-refine(al={})", sc.al),
+                    });
+                    pstats.eobrun_max = pstats.eobrun_max.max(st.eobrun_max);
+                    pstats.eob_symbols.extend(st.eob_symbols.iter().copied());
+                    pstats.zrl_refine += st.zrl_refine;
+                    pstats.zrl_refine_with_bits += st.zrl_refine_with_bits;
+                    pstats.zrl_first += st.zrl_first;
+                    pstats.newly_pos += st.newly_pos;
+                    pstats.newly_neg += st.newly_neg;
+                    pstats.correction_bits += st.correction_bits;
+                    pstats.max_bits_per_symbol = pstats.max_bits_per_symbol.max(st.max_bits_per_symbol);
+                    pstats.neg_inexact_shift += st.neg_inexact_shift;
+                    pstats.splits_effective += st.splits_effective;
+                    pstats.extra_zrl += st.extra_zrl;
+                    t
+                }
+                Err(e) => return failed_case(spec, classes, format!("scan tokens: {e}")),
+            }
+        } else {
+            match scan_tokens(&spec, s, interval_of_scan[s]) {
+                Ok(t) => t,
+                Err(e) => return failed_case(spec, classes, format!("scan tokens: {e}")),
+            }
         };
         let mut m: BTreeMap<(bool, u8), BTreeSet<u8>> = BTreeMap::new();
         for sc in &spec.scans[s].comps {
-            m.entry((false, sc.td)).or_default();
-            m.entry((true, sc.ta)).or_default();
+            // a progressive scan uses DC tables only in a first DC scan, AC tables only in AC scans
+            let scan = &spec.scans[s];
+            if !progressive || (scan.ss == 0 && scan.ah == 0) {
+                m.entry((false, sc.td)).or_default();
+            }
+            if !progressive || scan.ss > 0 {
+                m.entry((true, sc.ta)).or_default();
+            }
         }
         for t in toks {
             match t {
@@ -1078,6 +1423,39 @@ pub fn gen_jpeg_case(src: &mut Src, o: &JpegGenOpts) -> JpegCase {
             }
         }
         used.push(m);
+    }
+    if progressive {
+        classes.push(format!("prog:scans-{}", match n_scans { 0..=3 => "<=3", 4..=8 => "4-8", 9..=16 => "9-16", _ => ">16" }));
+        classes.push(format!("prog:eobrun-max:{}", match pstats.eobrun_max { 0 => "none", 1 => "1", 2..=15 => "2-15", 16..=255 => "16-255", 256..=16383 => "256-16383", 16384..=32766 => "16384-32766", _ => "32767" }));
+        for n in &pstats.eob_symbols {
+            if *n >= 8 {
+                classes.push(format!("prog:eob-symbol-EOB{n}"));
+            }
+        }
+        if pstats.zrl_refine > 0 {
+            classes.push("prog:zrl-in-refinement".into());
+        }
+        if pstats.zrl_refine_with_bits > 0 {
+            classes.push("prog:zrl-in-refinement+correction-bits".into());
+        }
+        if pstats.zrl_first > 0 {
+            classes.push("prog:zrl-in-first-scan".into());
+        }
+        if pstats.newly_pos > 0 && pstats.newly_neg > 0 {
+            classes.push("prog:newly-nonzero:both-signs".into());
+        }
+        if pstats.correction_bits > 0 {
+            classes.push(format!("prog:correction-bits{}", if pstats.max_bits_per_symbol >= 8 { "(>=8 per symbol)" } else { "" }));
+        }
+        if pstats.neg_inexact_shift > 0 {
+            classes.push("prog:negative-coefficient-inexact-shift".into());
+        }
+        if pstats.splits_effective > 0 {
+            classes.push("prog:reset-points(effective)".into());
+        }
+        if pstats.extra_zrl > 0 {
+            classes.push("prog:extra-zero-runs(written)".into());
+        }
     }
     // DHT groups: (placed before scan index, table indices)
     let mut dht_groups: Vec<(usize, Vec<usize>)> = vec![];
@@ -1132,9 +1510,26 @@ pub fn gen_jpeg_case(src: &mut Src, o: &JpegGenOpts) -> JpegCase {
             }
         }
     }
+    // the reconstruction format cannot describe a file with fewer than two Huffman tables
+    // (e.g. a progressive file that stops after its DC scans): such a file gets a table no scan uses
+    while spec.huff_tables.len() < 2 {
+        let have_ac = spec.huff_tables.iter().any(|t| t.ac);
+        let id = (0..4u8).find(|&i| !spec.huff_tables.iter().any(|t| t.ac == !have_ac && t.id == i)).unwrap_or(3);
+        let k = spec.huff_tables.len();
+        spec.huff_tables.push(std_table(!have_ac, id, false));
+        match dht_groups.iter_mut().find(|g| g.0 == 0) {
+            Some(g) => g.1.push(k),
+            None => dht_groups.insert(0, (0, vec![k])),
+        }
+        classes.push("huffman:padding-table".into());
+    }
     // each group as one DHT segment or one segment per table
     let mut dht_segments: Vec<(usize, Vec<usize>)> = vec![];
     for (s, list) in dht_groups {
+        if list.is_empty() {
+            // (a DC refinement scan needs no table)
+            continue;
+        }
         if list.len() > 1 && tsrc.bool() {
             for k in list {
                 dht_segments.push((s, vec![k]));
@@ -1462,13 +1857,18 @@ pub fn gen_jpeg_case(src: &mut Src, o: &JpegGenOpts) -> JpegCase {
     classes.extend(bclasses);
     classes.sort();
     classes.dedup();
+    let scans_desc = if progressive {
+        spec.scans.iter().map(|sc| format!("{:?}:{}-{}/{}{}{}", sc.comps.iter().map(|x| x.comp).collect::<Vec<_>>(), sc.ss, sc.se, sc.ah, sc.al, if sc.eob_splits.is_empty() && sc.extra_zrl.is_empty() { String::new() } else { format!("(splits {}, extra-zrl {})", sc.eob_splits.len(), sc.extra_zrl.len()) })).collect::<Vec<_>>().join(" ")
+    } else {
+        format!("{layout:?}")
+    };
     let desc = format!(
-        "{}x{} comps={:?} sof={:#x} scans={:?} tables(dc,ac)={:?}/{:?} ri={} dri_scan={:?} quant={:?} segments={} tail={} pad={:?} jpeg_len={} jxl_len={}",
+        "{}x{} comps={:?} sof={:#x} scans={} tables(dc,ac)={:?}/{:?} ri={} dri_scan={:?} quant={:?} segments={} tail={} pad={:?} jpeg_len={} jxl_len={}",
         w,
         h,
         spec.components.iter().map(|c| (c.id, c.h, c.v, c.tq, c.bw, c.bh)).collect::<Vec<_>>(),
         spec.sof_marker,
-        layout,
+        scans_desc,
         td_of,
         ta_of,
         restart_interval,
@@ -1537,6 +1937,8 @@ mod tests {
             s
         };
         let mut with_restarts = 0;
+        let mut progressive = 0;
+        let mut refinement_zrl = 0;
         for case_no in 0..300 {
             let len = (next() % 1500) as usize;
             let choice: Vec<u8> = (0..len).map(|_| (next() >> 24) as u8).collect();
@@ -1550,7 +1952,16 @@ mod tests {
             assert_eq!(c.jbrd.markers.len(), c.spec.segments.len() + 1);
             assert_eq!(c.jbrd.data_stream().len(), c.jbrd.app_data.len() + c.jbrd.com_data.len() + c.jbrd.intermarker_data.len() + c.spec.tail.len());
             with_restarts += (c.encoded.restarts > 0) as usize;
+            if c.spec.sof_marker == 0xc2 {
+                progressive += 1;
+                // a progressive file holds exactly what its scans transmit
+                assert_eq!(effective_coefficients(&c.spec), c.spec.components.iter().map(|x| x.blocks.clone()).collect::<Vec<_>>());
+                assert_eq!(c.jbrd.scans.len(), c.spec.scans.len());
+                refinement_zrl += c.classes.iter().any(|x| x == "prog:zrl-in-refinement+correction-bits") as usize;
+            }
         }
         assert!(with_restarts > 10);
+        assert!(progressive > 60 && progressive < 180, "{progressive}");
+        assert!(refinement_zrl > 10, "{refinement_zrl}");
     }
 }
